@@ -44,6 +44,10 @@ Judge(e) ==
          LET exp == [b \in 1..256 |-> Compact(Dec(e.shape, Append(e.prefix, b - 1), 0))] IN
          Verdict(<< <<e.outs = exp, "decb">> >>,
                  [first_bad |-> IF e.outs = exp THEN 0 ELSE CHOOSE b \in 1..256 : Len(e.outs) < b \/ e.outs[b] # exp[b]])
+    [] e.op = "fixb" ->          \* entire 16-bit domain of a fixed-width adapter: 256 outcomes for one high byte
+         LET exp == [lo \in 1..256 |-> <<Enc(e.shape, <<lo - 1, e.hi>>), <<lo - 1, e.hi>>, 2>>] IN
+         Verdict(<< <<e.outs = exp, "fixb">> >>,
+                 [first_bad |-> IF e.outs = exp THEN 0 ELSE CHOOSE b \in 1..256 : Len(e.outs) < b \/ e.outs[b] # exp[b]])
     [] e.op = "seqhdr" ->
          LET c == Canon(BitsOfBytes(e.n, 64), 64) IN
          Verdict(<< <<e.bytes = c /\ e.err = "SerCustom", "seqhdr">> >>, [bytes |-> c, err |-> "SerCustom"])
